@@ -31,8 +31,8 @@ func (b *bodyErrReader) Read(p []byte) (int, error) {
 	return n, err
 }
 
-func NewZstdReader(body io.ReadCloser) *ZstdReader {
-	return &ZstdReader{Body: body}
+func NewZstdReader(body io.ReadCloser) CompressReader {
+	return withMessageEnd(&ZstdReader{Body: body})
 }
 
 func (zr *ZstdReader) Read(p []byte) (n int, err error) {
